@@ -125,6 +125,25 @@ ADDENDA = {
 }
 ADD14 = (' The public bpch reader (geoschemfiles.bpch: bpch1, else the block-walking reader) is opened on every cut too and must satisfy the property clauses (no fewer tracers, no more blocks than are complete, exposed blocks identical). The reader-model clauses are one-sided: a reader may be stricter than its transcribed decision procedure on a proper prefix (NOTE), never more generous.')
 ADDENDA['C14'] = ADDENDA.get('C14', '') + ADD14
+# rounds 10 and 11 and the late growth of the third session
+ADD2 = {
+    'C01': ' IOAPI constructors (arrays with and without explicit time flags, GRIDDESC text, a file built by hand) and programs over them: well-formed and TSTEP unlimited, also for the initial objects. eval with operands of different dimensions (broadcast_evals): the call raises or the result is well-formed. Interpolation steps (PncInterp.tla) are part of the programs.',
+    'C02': ' Boolean index arrays are a selector kind (SelIdx "bool"). On IOAPI files the time flags are data: a TSTEP selection picks exactly the selected records of TFLAG (TflagSelDiag). Variables made by eval whose type differs from their sources (bool, int64, float64; derived_types) must come out of slice_dim identical.',
+    'C03': ' Variables that use one dimension twice (T11) are in the domain; the median reducer is specified (RMedian).',
+    'C04': ' Fill values 0 and nan in the pieces (fill_stacks).',
+    'C05': ' IOAPI receivers (run_ioapi_isolation): a wrapper call leaves every existing object - structure, attributes and the metadata block incl. the shared VGLVLS array - as it was (interpSigma with a new model top included).',
+    'C06': ' Every operator between plain and masked files in both orders (mixed_arith); integer codes of large magnitude (T10); eval results of another type, then mask with values the type cannot hold (derived_types).',
+    'C07': ' The save-history model is also checked by Apalache as an inductive invariant (NcSession_Apa.tla, thorough tier). Empty-string attributes; attributes named like netCDF4.Variable members.',
+    'C08': ' Between reading and rewriting, another file of the same format on another grid is opened (no state may leak between open files).',
+    'C10': ' copy(data=False); templates I8 (explicit TFLAG) and I9 (no TFLAG yet); interpSigma with a new top.',
+    'C11': ' Time windows with a non-zero first index on every template, also of a file whose TFLAG is not materialised (CoherentSansTflag).',
+    'C14': ' After a refused read of an opened prefix the variables are read a second time (nothing may be handed out then either). The cloud/rain model includes the reader\'s record-marker comparison (CloudOpenM; invariants CloudTrueReadingPasses, CloudAliasShape), so the known finding C14_K2 covers only prefixes whose size AND markers fit the other variant.',
+    'C16': ' An explicit finite right sentinel (RightOut); array queries.',
+    'C19': ' Missing code 0.',
+    'C20': ' Non-zero forecast hours; the level text rule of the index record (LevelChars) bound to getvgtxts / writevardef / readvardef.',
+}
+for _k, _v in ADD2.items():
+    ADDENDA[_k] = ADDENDA.get(_k, '') + _v
 NOTE_FIX = {
     'C16': ('Datetime front-end time2idx is covered through C12 (date2num round trip) rather than here.', 'time2t is exercised on ascending time axes with explicit n x 2 time_bounds or uniform spacing (getTimes(bounds=True) is approximate otherwise, with a warning).'),
     'C08': ('Land use is not modelled (DESIGN.md I.2); ', 'Land use (old and new style, optional records) is in the grammar too; '),
